@@ -654,6 +654,8 @@ func mutateBytes(t *rapid.T, b []byte) []byte {
 type mpFile struct {
 	Key, Name string
 	Data      []byte
+	// ContentType of the part; empty = application/octet-stream
+	ContentType string
 }
 
 func buildMultipart(fields [][2]string, files []mpFile) ([]byte, string) {
@@ -667,7 +669,11 @@ func buildMultipart(fields [][2]string, files []mpFile) ([]byte, string) {
 	for _, f := range files {
 		h := make(textproto.MIMEHeader)
 		h.Set("Content-Disposition", fmt.Sprintf(`form-data; name=%q; filename=%q`, f.Key, f.Name))
-		h.Set("Content-Type", "application/octet-stream")
+		ct := f.ContentType
+		if ct == "" {
+			ct = "application/octet-stream"
+		}
+		h.Set("Content-Type", ct)
 		fw, _ := w.CreatePart(h)
 		fw.Write(f.Data)
 	}
@@ -859,7 +865,7 @@ func genHTTPCase(t *rapid.T) *HTTPCase {
 			}
 			if rapid.IntRange(0, 5).Draw(t, "bigbatch") == 0 {
 				// more operations than any fan-out limit one would think of
-				n := rapid.SampledFrom([]int{16, 17, 33, 65, 130}).Draw(t, "nbig")
+				n := rapid.SampledFrom([]int{16, 17, 33, 65, 130, 257, 300}).Draw(t, "nbig")
 				for len(elems) < n {
 					elems = append(elems, map[string]interface{}{"query": rapid.SampledFrom([]string{"{ __typename }", ops[len(ops)-1], "{ nope }"}).Draw(t, "bigop")})
 				}
@@ -906,7 +912,7 @@ func c07Features(c *HTTPCase) []string {
 
 func TestC07(t *testing.T) {
 	rec := ev.Get("C07")
-	rec.Rule = "POST bodies x content types against gateways over generated worlds (incl. abstract types without members): raw bytes, hostile constants, byte-mutated valid bodies, JSON shapes (null, arrays with non-objects, wrong member types, duplicate/odd-case keys), multipart layouts (missing/garbled operations or map, out-of-range/negative/malformed paths, missing files), syntactically valid operations (valid, invalid, root __typename, introspection mixes). Oracle: returns, no panic, status 422 iff undecodable by an independent reading of the documented shape (open cases accept either), JSON envelope, invalid => errors + data:null, probe request served afterwards. non-trivial = not a verbatim hostile constant; distinct by hash(content type, body, schema)"
+	rec.Rule = "POST bodies x content types against gateways over generated worlds (incl. abstract types without members): raw bytes, hostile constants, byte-mutated valid bodies, JSON shapes (null, arrays with non-objects, wrong member types, duplicate/odd-case keys), multipart layouts (missing/garbled operations or map, out-of-range/negative/malformed paths, missing files), syntactically valid operations (valid, invalid, root __typename, introspection mixes), batches of 16..300 operations. Oracle: returns, no panic, status 422 iff undecodable by an independent reading of the documented shape (open cases accept either), JSON envelope, invalid => errors + data:null, probe request served afterwards. non-trivial = not a verbatim hostile constant; distinct by hash(content type, body, schema)"
 	defer census.dump("C07")
 	rapid.Check(t, func(t *rapid.T) {
 		c := genHTTPCase(t)
